@@ -78,11 +78,15 @@ class ProxyHandler(RequestHandler):
         self.timeout = timeout
 
         # Create client for upstream requests
-        # Disable TOFU - proxy acts as transparent relay, not validator
+        # Disable TOFU - proxy acts as transparent relay, not validator.
+        # Bodies are relayed as the raw bytes upstream sent: decoding a text body
+        # with its declared charset and re-encoding it as UTF-8 under the same
+        # meta would corrupt every non-UTF-8 document
         self._client = GeminiClient(
             timeout=timeout,
             verify_ssl=False,
             trust_on_first_use=False,
+            decode_bodies=False,
         )
 
         logger.debug(
